@@ -34,8 +34,18 @@ struct Rec {
     compiles: Vec<String>,
 }
 
+/// modules live in three nested directories, so that a relative import only resolves against
+/// the directory of the importing module
+fn dir_of(i: usize) -> Vec<&'static str> {
+    match i % 3 {
+        0 => vec!["r"],
+        1 => vec!["r", "s"],
+        _ => vec!["r", "s", "t"],
+    }
+}
+
 fn loc_of(i: usize) -> Locator {
-    Locator::try_from(format!("file:///r/m{}.oal", i).as_str()).unwrap()
+    Locator::try_from(format!("file:///{}/m{}.oal", dir_of(i).join("/"), i).as_str()).unwrap()
 }
 
 impl Rec {
@@ -88,13 +98,25 @@ impl Loader<E> for Rec {
     }
 }
 
-fn spelling(t: usize, k: usize) -> String {
+/// a relative reference to module `t` as written in module `from`, in one of five spellings
+fn spelling(from: usize, t: usize, k: usize) -> String {
+    let (df, dt) = (dir_of(from), dir_of(t));
+    let common = df.iter().zip(dt.iter()).take_while(|(a, b)| a == b).count();
+    // shortest: up to the common ancestor, then down
+    let mut short = "../".repeat(df.len() - common);
+    for d in &dt[common..] {
+        short.push_str(d);
+        short.push('/');
+    }
+    short.push_str(&format!("m{}.oal", t));
+    // through the root
+    let long = format!("{}{}/m{}.oal", "../".repeat(df.len()), dt.join("/"), t);
     match k {
-        1 => format!("./m{}.oal", t),
-        2 => format!("x/../m{}.oal", t),
-        3 => format!("../r/m{}.oal", t),
-        4 => format!("./y/.././m{}.oal", t),
-        _ => format!("m{}.oal", t),
+        1 => format!("./{}", short),
+        2 => format!("x/../{}", short),
+        3 => long,
+        4 => format!("./y/.././{}", short),
+        _ => short,
     }
 }
 
@@ -126,7 +148,7 @@ pub fn run() {
                                 let mut it = t.split(':');
                                 let tn: usize = it.next().unwrap().parse().unwrap();
                                 let k: usize = it.next().map(|s| s.parse().unwrap()).unwrap_or(0);
-                                src.push_str(&format!("use \"{}\";\n", spelling(tn, k)));
+                                src.push_str(&format!("use \"{}\";\n", spelling(id, tn, k)));
                             }
                             rec.files.insert(loc_of(id), (id, File::Good(src)));
                         }
